@@ -97,11 +97,12 @@ def guesser_promise(pcfg, pw, p):
                         rec(pos + 1, off, acc + [j], prob * g['prob'])
                 return
             for j, g in enumerate(pcfg.grammar.get(r, [])):
+                tried = set()   # one group can hold values of different lengths (context-sensitive strings: 'No.' and 'No.1')
                 for v in g['values']:
                     seg = pw[off:off + len(v)]
-                    if (r[0] == 'A' and seg.lower() == v) or (r[0] != 'A' and seg == v):
+                    if len(v) not in tried and ((r[0] == 'A' and seg.lower() == v) or (r[0] != 'A' and seg == v)):
+                        tried.add(len(v))
                         rec(pos + 1, off + len(v), acc + [j], prob * g['prob'])
-                        break
         rec(0, 0, [], b['prob'])
         if best is not None and best[0]:
             return best
@@ -124,7 +125,9 @@ def run(ctx):
             # whatever the seed: strings in which one terminal occurs twice (its factor must be multiplied twice), next to
             # strings with two different terminals of the same list
             pws += ['12love12', '34love34', '12love34', 'love12', 'love34', '!pass!', '#pass!', 'pass#', '7monkey7', '7monkey8',
-                    '2019hello2019', 'hello2019', '1qaz2wsx1qaz', '<3love<3', 'love<3']
+                    '2019hello2019', 'hello2019', '1qaz2wsx1qaz', '<3love<3', 'love<3',
+                    # context-sensitive strings of different lengths that share one probability group ('No.' is a prefix of 'No.1')
+                    'xy??No.1', 'word No.', 'dr.house']
         if not tame:
             pws += ['ǆabc1', 'ǆabc1', 'İpass', 'passİ1', 'ǅword', 'ßtrasse1']
             dist['nontame_lists'] += 1
